@@ -1030,7 +1030,8 @@ def ext(ctx):
                 "matching, the client-version registry, the version provider, the namespace provider, sequentially; "
                 "VdrApi.tla - VDR.Accept / Update / Deactivate / Close; ClientSend.tla - how the Sidetree client delivers a "
                 "request (endpoint discovery with / without cache, one retry, bearer tokens) against local HTTP nodes; Identifiers.tla - the ids "
-                "a resolution is given (pkg/docutil), the document validators, the create result. A disagreement is reported as NONCONFORMANCE with "
+                "a resolution is given (pkg/docutil), the document validators, the create result; ClientApi.tla - the four calls of the "
+                "Sidetree client from the options to the request that leaves the client. A disagreement is reported as NONCONFORMANCE with "
                 "the extension specification, not as a violation of a property.")
     deep = ctx.tier != "quick"
     _, vs = ctx.tlc_pipe("MC_Versions.tla", "MC_Versions.cfg", ["versions-replay"], workers=4,
@@ -1064,6 +1065,16 @@ def ext(ctx):
         rec["expected"]["published"] = not rec["expected"]["published"]
 
     ctx.negctl_replay(["identifiers-replay"], ids["_first_edge"], iwrong)
+    _, ca = ctx.tlc_pipe("MC_ClientApi.tla", "MC_ClientApi.cfg", ["clientapi-replay"], workers=2,
+                         label="ClientApi.tla: CreateDID / UpdateDID / RecoverDID / DeactivateDID: subsets of the required options x DID shape x "
+                               "commitment x option groups (all 64 subsets) x algorithm option x key re-use x anchor origin x node answer; "
+                               "observed: outcome, sends, the request that left the client")
+
+    def cawrong(rec):
+        rec["res"] = "ok" if rec["res"] != "ok" else "err"
+        rec["sends"] = 1 - rec["sends"]
+
+    ctx.negctl_replay(["clientapi-replay"], ca["_first_edge"], cawrong)
     if deep:
         ctx.tlaps_check("VersionsProofs.tla", needs=("Versions.tla",), abstract_ops=False,
                         label="TLAPS: version matching is an equivalence on all strings and looks at two parts; the "
